@@ -294,11 +294,12 @@ def make_script(cdir, job, arg, plan):
         f'f={cdir}/{job}; touch "$f"; n=$(($(wc -l < "$f")+1)); echo "$n {arg}" >> "$f"; '
         f'case $n in {cases} esac; echo "{tagline} mode=$m"; '
         f'case $m in '
-        # a second requested file, warnings.log, is legitimately EMPTY after a clean run
-        f'ok) echo "{tagline} status=ok" > result.txt; : > warnings.log; exit 0;; '
-        f'fail_file) echo "{tagline} status=partial" > result.txt; : > warnings.log; exit 3;; '
+        # a second requested file, logs/warnings.log, sits in a sub-directory the command makes and is legitimately
+        # EMPTY after a clean run
+        f'ok) echo "{tagline} status=ok" > result.txt; mkdir -p logs; : > logs/warnings.log; exit 0;; '
+        f'fail_file) echo "{tagline} status=partial" > result.txt; mkdir -p logs; : > logs/warnings.log; exit 3;; '
         f'fail_nofile) exit 4;; '
-        f'omit) : > warnings.log; exit 0;; '
+        f'omit) mkdir -p logs; : > logs/warnings.log; exit 0;; '
         f'crash) kill -9 $PPID; exit 0;; '
         f'esac; exit 9'
     )
@@ -317,7 +318,7 @@ def make_driver(cfg):
     class C18Driver(DriverBase):
         default_executable = "sh"
 
-        @Job(return_files=("result.txt", "warnings.log")).prep
+        @Job(return_files=("result.txt", "logs/warnings.log")).prep
         def work_m(self, M, tag="a"):
             job = job_name(M)
             script = make_script(cfg["cdir"], job, tag, cfg["plans"][job])
